@@ -8,11 +8,11 @@ lane() {
   k="$1"; shift
   for s in "$@"; do
     p=${s%%-*}
-    wt=/tmp/seedpar-$k
+    wt=/tmp/seedpar-${SEEDPAR_TAG:-}$k
     git -C /repo worktree remove --force $wt >/dev/null 2>&1
     git -C /repo worktree add -q $wt HEAD
     if git -C $wt apply /verif/seeded/$s/patch.diff 2>/dev/null; then
-      out=$(VERIF_REPO=$wt VERIF_ALT_TAG=-$k ./check $p 2>&1)
+      out=$(VERIF_REPO=$wt VERIF_ALT_TAG=-${SEEDPAR_TAG:-}$k ./check $p 2>&1)
       v=$(echo "$out" | grep -c '^VIOLATION')
       nf=$(echo "$out" | grep '^VIOLATION' | grep -c 'no-failing-input-found')
       ni=$(( v - nf ))
